@@ -49,8 +49,8 @@ def run(ctx):
         ctx.count()
         if merr is not None:
             ctx.disagree('build', {'spec': spec}, merr, None); continue
-        if not res[0]['wf']['readsBelow'] or not res[0]['wf']['histoBlocksOK']:
-            ctx.disagree('wf-hypothesis', {'spec': spec}, res[0]['wf'], True, 'hypothesis of C10_batched_expected_eq_rows fails on a generated spec')
+        if not res[0]['wf']['readsBelow'] or not res[0]['wf']['histoBlocksOK'] or not res[0]['wf']['constraintReadsBelow']:
+            ctx.disagree('wf-hypothesis', {'spec': spec}, res[0]['wf'], True, 'hypothesis of C10_batched_expected_eq_rows / C10_batched_logpdf_eq_rows fails on a generated spec')
         ctx.tally('batch_size', N)
         bsel = [('numpy', '64b'), BACKENDS[1 + (i + ctx.seed) % 5]] if not jaxp else [('numpy', '64b'), ('jax', '64b')]
         if ctx.thorough and i % 10 == 0 and not jaxp: bsel = BACKENDS
